@@ -1,5 +1,5 @@
 (** C08 - interpolants reproduce their data (SplineInterpolator1D / 2D of spline_interpolators.py).
-    Only statements, [exact]s and [Print Assumptions]; the proofs live in InterpTheory.v (model: InterpModel.v,
+    Only statements, [exact]s and [Print Assumptions]; the proofs live in InterpTheory.v and Interp2D.v (model: InterpModel.v,
     evaluation: SplineModel.v / SplineTheory.v of C07, seed: CollocRow.row_dot_is_eval) and InterpQc.v (the
     instance on Qc that is extracted and run, and the witnesses computed with it).  Every theorem holds for
     every field with a compatible decidable total order ([sp_laws]), every degree and every size.
@@ -12,9 +12,6 @@
     BY the check A.X = B ([c08_lin_solve_spec] holds by construction); LAPACK / SuperLU are modelled by it.
 
     NOT proved here (see the evidence, "uncovered_clauses"):
-    - interp2d_exact: the 2-D interpolant takes the data values at the tensor grid (all four boundary
-      combinations) - exercised by the exact differential only (model = code, S(x_i, y_j) = u_ij exactly on the
-      model's coefficients, see [c08_ex_interp2d]);
     - reproduction of polynomials of degree 1..p on clamped spaces (degree 0 is [c08_interp1d_const] +
       [c08_const_spline]); tested exactly for degrees 1..5;
     - non-singularity of the collocation matrix for all admissible spaces (Schoenberg-Whitney): the theorems that
@@ -27,7 +24,7 @@
     nbasis.  [c08_lww_row_pinned_tree] documents the last-write-wins assignment of the pinned tree (defect 10). *)
 From Coq Require Import List Arith Lia ZArith Bool QArith Qcanon.
 Import ListNotations.
-From PGV Require Import BasisCoxDeBoor CoxDeBoorGen FindSpan CubicUniform CollocRow Sums SplineModel SplineTheory SplineQc InterpModel InterpTheory InterpQc.
+From PGV Require Import BasisCoxDeBoor CoxDeBoorGen FindSpan CubicUniform CollocRow Sums SplineModel SplineTheory SplineQc InterpModel InterpTheory Interp2D InterpQc.
 
 (** the solver: a returned X has the shape n x m and satisfies A.X = B (by construction: the check is part of the definition) *)
 Theorem c08_lin_solve_spec :
@@ -119,6 +116,48 @@ Theorem c08_interp_many_exact :
   SpOk (nth i (nth r us []) (sp0 K)).
 Proof. exact (@ip_interp_many_exact). Qed.
 Print Assumptions c08_interp_many_exact.
+
+(** HEADLINE (2-D, all four clamped / periodic combinations, general and uniform-cubic path): if SplineInterpolator2D.compute_interpolant (two sweeps of 1-D solves, both transposes, both wraps) returns w then Spline2D.eval gives u[i][j] at every point (x1_i, x2_j) of the tensor grid *)
+Theorem c08_interp2d_exact :
+  forall (F : Type) (K : sp_ops F),
+  sp_laws K ->
+  forall (k1 : list F) (d1 : nat) (per1 : bool) (xs1 k2 : list F) (d2 : nat)
+  (per2 : bool) (xs2 : list F) (cubic : bool) (ug w : list (list F)),
+  ip_interp2d F K k1 d1 per1 xs1 k2 d2 per2 xs2 cubic ug = SpOk w ->
+  ip_spans_in_range F K k1 d1 per1 cubic xs1 ->
+  ip_spans_in_range F K k2 d2 per2 cubic xs2 ->
+  forall i j : nat,
+  (i < ip_nbasis F K k1 d1 per1 cubic)%nat ->
+  (j < ip_nbasis F K k2 d2 per2 cubic)%nat ->
+  ip_eval2d F K k1 d1 k2 d2 cubic w (nth i xs1 (sp0 K)) (nth j xs2 (sp0 K)) =
+  SpOk (nth j (nth i ug []) (sp0 K)).
+Proof. exact (@ip_interp2d_exact). Qed.
+Print Assumptions c08_interp2d_exact.
+
+(** Spline2D.eval at a point whose spans / bases are (s1, b1), (s2, b2) is the tensor sum over the coefficient block *)
+Theorem c08_eval2d_of_span_basis :
+  forall (F : Type) (K : sp_ops F),
+  sp_laws K ->
+  forall (k1 : list F) (d1 : nat) (k2 : list F) (d2 : nat) (cubic : bool)
+  (w : list (list F)) (x y : F) (s1 : nat) (b1 : list F) (s2 : nat) (b2 : list F),
+  ip_span_basis F K k1 d1 cubic x = SpOk (s1, b1) ->
+  ip_span_basis F K k2 d2 cubic y = SpOk (s2, b2) ->
+  (cubic = true -> d1 = 3%nat /\ d2 = 3%nat) ->
+  (d1 <= s1)%nat ->
+  (s1 < length w)%nat ->
+  (d2 <= s2)%nat ->
+  Forall (fun row : list F => (s2 < length row)%nat) w ->
+  ip_eval2d F K k1 d1 k2 d2 cubic w x y =
+  SpOk
+  (sumn F (sp0 K) (spadd K) (S d1)
+  (fun a : nat =>
+  spmul K
+  (sumn F (sp0 K) (spadd K) (S d2)
+  (fun b : nat =>
+  spmul K (nth (s2 - d2 + b) (nth (s1 - d1 + a) w []) (sp0 K)) (nth b b2 (sp0 K))))
+  (nth a b1 (sp0 K)))).
+Proof. exact (@ip_eval2d_of_span_basis). Qed.
+Print Assumptions c08_eval2d_of_span_basis.
 
 (** the coefficient array has ncells + degree entries and periodic interpolants keep their wrapped coefficients consistent: c[n+j] = c[j], j < degree *)
 Theorem c08_wrap_consistent :
